@@ -1382,45 +1382,53 @@ func gcmNearWrap(c *Ctx, idx int) Case {
 		return wrapAPIs[c.Rng.Intn(len(wrapAPIs))]
 	}
 	a := w.ep("A")
-	ctr := uint64(start) // frames accepted so far + start = the counter the next frame would use
+	// the counter the next frame would use = start + frames REALLY put on the connection so far (counted
+	// on the connection, not inferred from the API used: when a buffered write flushes is the library's
+	// business — a call that only buffers consumes no counter value and cannot be refused)
+	ctr := uint64(start)
+	framesIn := func(b []byte) int { fr, _ := refcodec.ParseFrames(b); return len(fr) }
 	for i := 0; i < 5; i++ {
 		api := pickAPI()
 		before := len(a.c.AllOut)
 		err := w.emitVia(c, "A", api)
+		wrote := a.c.AllOut[before:]
 		if err != nil {
 			if ctr != 0xffffffff {
 				c.Violate(Violation{Property: "C12", Key: "C12:early-refusal:" + api, What: "send refused before the counter limit", Ops: append([]string{}, w.ops...), Expected: "ok", Observed: err.Error()})
 				break
 			}
-			if n := len(a.c.AllOut) - before; n != 0 {
-				c.Violate(Violation{Property: "C12", Key: "C12:refused-send-wrote-bytes:" + api, What: "the call that refused to send at the counter limit nevertheless wrote bytes to the connection", Ops: append([]string{}, w.ops...), Expected: "nothing written", Observed: fmt.Sprintf("%d bytes written by the refused call", n)})
+			if len(wrote) != 0 {
+				c.Violate(Violation{Property: "C12", Key: "C12:refused-send-wrote-bytes:" + api, What: "the call that refused to send at the counter limit nevertheless wrote bytes to the connection", Ops: append([]string{}, w.ops...), Expected: "nothing written", Observed: fmt.Sprintf("%d bytes written by the refused call", len(wrote))})
 			}
-			// the refusal is permanent, whatever API the caller tries next: refused every time, and
-			// NOTHING reaches the connection (a counter that wrapped on a refused attempt would start
-			// again at the base IV — the nonce of the session's first frame). The bytes are counted on
-			// the connection itself: the world discards the output of a failed call.
+			// the refusal is permanent, whatever API the caller tries next: NOTHING reaches the connection
+			// any more (a counter that wrapped on a refused attempt would start again at the base IV — the
+			// nonce of the session's first frame). Judged on the bytes on the connection itself: the world
+			// discards the output of a failed call, and a call that merely buffers may well return nil.
 			for k := 0; k < 4; k++ {
 				api2 := wrapAPIs[c.Rng.Intn(len(wrapAPIs))]
 				before := len(a.c.AllOut)
 				err2 := w.emitVia(c, "A", api2)
-				if n := len(a.c.AllOut) - before; err2 == nil || n != 0 {
-					c.Violate(Violation{Property: "C12", Key: "C12:refusal-not-permanent:" + api2, What: "after refusing to send at the counter limit the stream sent a later frame (the counter wrapped)", Ops: append([]string{}, w.ops...), Expected: "err counterMax again, nothing written", Observed: fmt.Sprintf("attempt %d (%s) after the refusal: err=%v, %d bytes written to the connection", k+1, api2, err2, n)})
+				if n := len(a.c.AllOut) - before; n != 0 {
+					c.Violate(Violation{Property: "C12", Key: "C12:refusal-not-permanent:" + api2, What: "after refusing to send at the counter limit the stream sent a later frame (the counter wrapped)", Ops: append([]string{}, w.ops...), Expected: "nothing written after the refusal", Observed: fmt.Sprintf("attempt %d (%s) after the refusal: err=%v, %d bytes written to the connection", k+1, api2, err2, n)})
 					break
 				}
 			}
 			break
 		}
-		if ctr >= 0xffffffff {
-			c.Violate(Violation{Property: "C12", Key: "C12:counter-wrap:" + api, What: "stream sent a frame at/after the counter limit instead of refusing (through " + api + ")", Ops: append([]string{}, w.ops...), Expected: "err counterMax", Observed: fmt.Sprintf("ok, %d bytes written", len(a.c.AllOut)-before)})
+		n := framesIn(wrote)
+		if n > 0 && ctr+uint64(n) > 0xffffffff {
+			c.Violate(Violation{Property: "C12", Key: "C12:counter-wrap:" + api, What: "stream sent a frame at/after the counter limit instead of refusing (through " + api + ")", Ops: append([]string{}, w.ops...), Expected: "err counterMax", Observed: fmt.Sprintf("ok, %d frame(s) / %d bytes written", n, len(wrote))})
 			break
 		}
-		ctr++
-		if api == "secret-off" {
-			w.crypto("B", false)
-			_, err = w.getsecret("B")
-			w.crypto("B", true)
-		} else {
-			_, _, err = w.recvf("B")
+		ctr += uint64(n)
+		for j := 0; j < n && err == nil; j++ {
+			if api == "secret-off" {
+				w.crypto("B", false)
+				_, err = w.getsecret("B")
+				w.crypto("B", true)
+			} else {
+				_, _, err = w.recvf("B")
+			}
 		}
 		if err != nil {
 			break
